@@ -26,5 +26,8 @@ pub fn run(args: &Args) {
         let len = 8 + rng.below(9) as usize;
         crate::vault_hist::run_history(&mut out, "C14", "vault", &mut rng, crate::vault_hist::Mix::SharePrice, cw20, fees, funds, crate::vault_hist::Source::Gen(len));
     }
+    // stableswap pair and three-asset pool: Simulation issued right before every swap of their pool-history streams
+    crate::c03::histories(&mut out, &mut rng, (args.n / 3).max(20));
+    crate::c04_pool::pool_histories(&mut out, &mut rng, (args.n / 3).max(20));
     out.finish();
 }
